@@ -243,7 +243,11 @@ def h_fetch_app(eng, case):
                 else:
                     seg = Component.to_number(n[-1])
                 reqs.append(seg)
-                if sel == 0 and seg < N:
+                if sel == 0 and N is None:
+                    # an unsegmented object published under exactly the requested name
+                    script.append(('data',))
+                    await app._receive(6, bytes(enc.make_data('/obj', enc.MetaInfo(), b'whole')))
+                elif sel == 0 and seg < N:
                     script.append(('data',))
                     fb = Component.from_segment(N - 1)
                     d = enc.make_data(Name.from_str('/obj') + [Component.from_segment(seg)],
@@ -306,6 +310,10 @@ def h_fetch_app(eng, case):
         if ans[0] == 'data' and validator is not None:
             exp_end = ('vfail',)               # the caller's validator rejects every packet
             break
+        if ans[0] == 'data' and N is None:
+            exp_got.append(b'whole')
+            exp_end = ('done',)
+            break
         if ans[0] == 'data':
             exp_got.append(b'seg%d' % seg)
             if seg == N - 1:
@@ -360,4 +368,5 @@ def cases(tier, seed):
     for N, retry in ((1, 1), (2, 2), (3, 1)) if tier == 'quick' else ((1, 1), (2, 2), (3, 1), (3, 2), (2, 3)):
         cs.append(('fetch_app', {'N': N, 'retry': retry}, {'weight': 3 ** (N + retry), 'split_depth': 3}))
     cs.append(('fetch_app', {'N': 2, 'retry': 1, 'validator': 'rejecting-object'}, {'weight': 9}))
+    cs.append(('fetch_app', {'N': None, 'retry': 2}, {'weight': 9}))
     return cs
